@@ -150,6 +150,14 @@ func (w *World) Structural() []structural {
 	out = append(out, structural{"structural#no-goroutines", []string{"C08", "C12"}, len(gos) == 0, fmt.Sprintf("go statements / channel operations: %v", gos), token.Position{}})
 	out = append(out, structural{"structural#no-recursion", []string{"C12"}, len(recs) == 0, fmt.Sprintf("cycles in the static call graph: %v", recs), token.Position{}})
 	out = append(out, structural{"structural#loops-terminate", []string{"C12"}, len(badLoops) == 0, fmt.Sprintf("loops that are neither range loops nor carry a decreases clause: %v", badLoops), token.Position{}})
+	for _, rl := range w.mapRangeLoops() {
+		name := fmt.Sprintf("structural#order-independent:%s#loop%d", FuncKey(rl.Fn), rl.Ordinal)
+		detail := fmt.Sprintf("raw range over a map in %s (loop %d): %s", FuncKey(rl.Fn), rl.Ordinal, rl.Why)
+		if rl.Class != "" {
+			detail += " [criterion " + rl.Class + "]"
+		}
+		out = append(out, structural{name, []string{"C08"}, rl.Class != "", detail, w.Fset.Position(loopPos(rl.Head))})
+	}
 	out = append(out, structural{"structural#globals-written-only-in-init", []string{"C08", "C12", "C05", "C11"}, len(globalWrites) == 0, fmt.Sprintf("writes to package-level variables outside init: %v", globalWrites), token.Position{}})
 	return out
 }
@@ -172,3 +180,256 @@ func (w *World) StructuralUnit() *Unit {
 }
 
 var _ = types.Typ
+
+// ---------------------------------------------------------------- order independence of raw map-range loops (C08)
+
+// A raw `for k, v := range m` visits keys in an arbitrary order. Each such loop in /repo must be
+// justified, with zero annotations, by one of the following (DESIGN 4, C08):
+//
+//	A  point-wise store: the body's only effects are dst[k] = e (index = the loop key) on maps
+//	   that the body does not read, no early exit, only pure calls.  Stores at distinct keys commute.
+//	A' as A with index = the loop value; then the executor emits the semantic obligation that
+//	   the ranged map is injective (order:injective-values).
+//	B  collect-then-sort: the body's only effect is X = append(X, e), no early exit, only pure calls,
+//	   and the first use of X after the loop is sort.Slice / sort.SliceStable / sort.Strings.
+//	   (Strictness of the order is the enclosing function's strictly_increasing postcondition.)
+//	D  determined result: the enclosing function's contract is marked `deterministic` and govc proves that
+//	   its postconditions admit at most one result for given inputs.
+//
+// Anything else is an order-dependence violation.
+type rangeLoop struct {
+	Fn      *ssa.Function
+	Head    *ssa.BasicBlock
+	Range   *ssa.Range
+	Ordinal int
+	Class   string
+	Why     string
+}
+
+func (w *World) mapRangeLoops() []rangeLoop {
+	var out []rangeLoop
+	for _, f := range w.repoFuncsSorted() {
+		fr := NewVC(w, "tmp").newFrame(f, nil)
+		for h, li := range fr.loops {
+			var rng *ssa.Range
+			var next *ssa.Next
+			for _, in := range h.Instrs {
+				if nx, ok := in.(*ssa.Next); ok && !nx.IsString {
+					next = nx
+					rng, _ = nx.Iter.(*ssa.Range)
+				}
+			}
+			if rng == nil {
+				continue
+			}
+			if _, isMap := rng.X.Type().Underlying().(*types.Map); !isMap {
+				continue
+			}
+			rl := rangeLoop{Fn: f, Head: h, Range: rng, Ordinal: li.ordinal}
+			rl.Class, rl.Why = w.classifyRange(fr, li, rng, next)
+			out = append(out, rl)
+		}
+	}
+	sort.Slice(out, func(i, j int) bool {
+		if FuncKey(out[i].Fn) != FuncKey(out[j].Fn) {
+			return FuncKey(out[i].Fn) < FuncKey(out[j].Fn)
+		}
+		return out[i].Ordinal < out[j].Ordinal
+	})
+	return out
+}
+
+func (w *World) classifyRange(fr *Frame, li *loopInfo, rng *ssa.Range, next *ssa.Next) (string, string) {
+	var keyV, valV ssa.Value
+	for _, r := range *next.Referrers() {
+		if ex, ok := r.(*ssa.Extract); ok {
+			switch ex.Index {
+			case 1:
+				keyV = ex
+			case 2:
+				valV = ex
+			}
+		}
+	}
+	// early exit: an edge from the body to outside that is not the header's own exit
+	for b := range li.body {
+		if b == li.head {
+			continue
+		}
+		for _, s := range b.Succs {
+			if !li.body[s] {
+				return w.detOr(fr, "the loop can be left early")
+			}
+		}
+		if _, ok := b.Instrs[len(b.Instrs)-1].(*ssa.Return); ok {
+			return w.detOr(fr, "the loop body returns")
+		}
+	}
+	var stores, appends int
+	var appendTarget *ssa.Phi
+	var appendAlloc *ssa.Alloc
+	valueIndexed := false
+	for b := range li.body {
+		for _, in := range b.Instrs {
+			switch in := in.(type) {
+			case *ssa.MapUpdate:
+				if in.Key == keyV {
+					stores++
+				} else if in.Key == valV {
+					stores++
+					valueIndexed = true
+				} else {
+					return w.detOr(fr, "map store at an index that is not the loop key")
+				}
+			case *ssa.Store:
+				var roots []ssa.Value
+				rootsOf(in.Addr, &roots, 0)
+				local := len(roots) > 0
+				for _, r := range roots {
+					a, isAlloc := r.(*ssa.Alloc)
+					if !isAlloc || !li.body[a.Block()] {
+						local = false
+					}
+				}
+				if local {
+					continue // a temporary allocated inside the iteration (e.g. the argument array of a variadic call)
+				}
+				// x = append(x, e) on an address-taken / captured variable
+				if a, ok := in.Addr.(*ssa.Alloc); ok {
+					if c, ok := in.Val.(*ssa.Call); ok {
+						if bi, ok := c.Call.Value.(*ssa.Builtin); ok && bi.Name() == "append" {
+							if ld, ok := c.Call.Args[0].(*ssa.UnOp); ok && ld.X == a {
+								appendAlloc = a
+								continue
+							}
+						}
+					}
+				}
+				return w.detOr(fr, "the loop body writes memory")
+			case *ssa.Call:
+				if bi, ok := in.Call.Value.(*ssa.Builtin); ok {
+					if bi.Name() == "append" {
+						appends++
+						if phi, ok := in.Call.Args[0].(*ssa.Phi); ok {
+							appendTarget = phi
+						}
+						continue
+					}
+					if bi.Name() == "len" || bi.Name() == "cap" {
+						continue
+					}
+					return w.detOr(fr, "builtin "+bi.Name()+" in the loop body")
+				}
+				callee := in.Call.StaticCallee()
+				if callee == nil {
+					return w.detOr(fr, "dynamic call in the loop body")
+				}
+				sp := w.SpecFor(callee)
+				if (sp != nil && sp.Pure) || (!IsRepo(callee) && w.pureExternal(callee)) || qualifiedName(callee) == RepoModule+"/internal/pkg/regex.Match" {
+					continue
+				}
+				return w.detOr(fr, "call to "+qualifiedName(callee)+", which is not known to be pure")
+			case *ssa.Defer, *ssa.Go, *ssa.Panic:
+				return w.detOr(fr, "defer/go/panic in the loop body")
+			}
+		}
+	}
+	switch {
+	case stores > 0 && appends == 0:
+		if valueIndexed {
+			w.RangeNeedsInjective[rng] = true
+			return "A'", "point-wise map stores indexed by the loop value; injectivity of the ranged map is a semantic obligation"
+		}
+		return "A", "point-wise map stores at the loop key commute"
+	case stores == 0 && appends > 0:
+		if appendAlloc != nil {
+			// sorted after the loop: a sort call outside the loop on a load of the same variable
+			for _, b := range fr.fn.Blocks {
+				if li.body[b] {
+					continue
+				}
+				for _, in := range b.Instrs {
+					c, ok := in.(*ssa.Call)
+					if !ok {
+						continue
+					}
+					callee := c.Call.StaticCallee()
+					if callee == nil {
+						continue
+					}
+					q := qualifiedName(callee)
+					if q != "sort.Slice" && q != "sort.SliceStable" && q != "sort.Strings" {
+						continue
+					}
+					arg := c.Call.Args[0]
+					if mi, ok := arg.(*ssa.MakeInterface); ok {
+						arg = mi.X
+					}
+					if ld, ok := arg.(*ssa.UnOp); ok && ld.X == appendAlloc {
+						return "B", "elements are collected and then sorted before any other use"
+					}
+				}
+			}
+			return w.detOr(fr, "collected slice is used unsorted after the loop")
+		}
+		if appendTarget == nil {
+			return w.detOr(fr, "append to something that is not a loop-carried slice variable")
+		}
+		// the first use of the collected slice after the loop must be a sort
+		if w.sortedAfter(li, appendTarget) {
+			return "B", "elements are collected and then sorted before any other use"
+		}
+		return w.detOr(fr, "collected slice is used unsorted after the loop")
+	case stores == 0 && appends == 0:
+		return "A", "the loop body has no effect"
+	}
+	return w.detOr(fr, "mixed map stores and appends")
+}
+
+func (w *World) detOr(fr *Frame, why string) (string, string) {
+	if fr.spec != nil && fr.spec.Deterministic {
+		return "D", why + "; but the function's contract is proved to determine its result"
+	}
+	return "", why
+}
+
+// sortedAfter reports whether the value of the loop-carried slice, once the loop exits, flows (possibly through
+// one store into a captured variable) into sort.Slice / sort.SliceStable / sort.Strings before any other use.
+func (w *World) sortedAfter(li *loopInfo, phi *ssa.Phi) bool {
+	uses := *phi.Referrers()
+	sorted := false
+	for _, u := range uses {
+		if li.body[u.Block()] {
+			continue
+		}
+		switch u := u.(type) {
+		case *ssa.DebugRef:
+		case *ssa.MakeInterface:
+			for _, r := range *u.Referrers() {
+				if c, ok := r.(*ssa.Call); ok {
+					if callee := c.Call.StaticCallee(); callee != nil {
+						if q := qualifiedName(callee); q == "sort.Slice" || q == "sort.SliceStable" {
+							sorted = true
+						}
+					}
+				}
+			}
+		case *ssa.Store:
+			// stored into a captured variable: look for the sort on a load of that variable in the same block
+			for _, in := range u.Block().Instrs {
+				if c, ok := in.(*ssa.Call); ok {
+					if callee := c.Call.StaticCallee(); callee != nil {
+						if q := qualifiedName(callee); q == "sort.Slice" || q == "sort.SliceStable" || q == "sort.Strings" {
+							sorted = true
+						}
+					}
+				}
+			}
+		case *ssa.Call:
+			if callee := u.Call.StaticCallee(); callee != nil && qualifiedName(callee) == "sort.Strings" {
+				sorted = true
+			}
+		}
+	}
+	return sorted
+}
